@@ -114,6 +114,15 @@ def connectivity(repo):
     k = body.index(loop)
     if ast.unparse(body[k - 1]) != "con = []":
         raise TranslateError(f"{CONN}: expected `con = []` before the loop")
+    # how the geometry and the radii are read, pinned statement by statement (the model takes positions and radii as data)
+    pre = [ast.unparse(st) for st in body[:k - 1]]
+    want_pre = ["geometry = np.asarray(geometry, dtype=float).reshape(-1, 3)", "radii = []",
+                "for s in symbols:\n    try:\n        radii.append(covalentradii.get(s, missing=1.8))\n    except NotAnElementError:\n        radii.append(1.8)",
+                "radii = np.array(radii)"]
+    if pre != want_pre:
+        diff = [a for a, w in zip(pre + [""] * 5, want_pre + [""] * 5) if a != w][:1]
+        raise TranslateError(f"{CONN}: guess_connectivity: the statements before the loop are not the expected ones (geometry as (n,3) floats; "
+                             f"radii from covalentradii.get(s, missing=1.8), 1.8 for non-elements): {diff}")
     rest = body[k + 1:]
     if len(rest) != 2 or ast.unparse(rest[1]) != "return con" or \
             ast.unparse(rest[0]) != "if default_connectivity:\n    con = [(x[0], x[1], default_connectivity) for x in con]":
@@ -170,6 +179,9 @@ def distance_matrix(repo):
         _fail(MISC, st, "expected distm[i] = np.linalg.norm(<expr>, axis=1)")
     if "distm = np.zeros([a.shape[0], b.shape[0]])" not in [ast.unparse(s) for s in body] or ast.unparse(body[-1]) != "return distm":
         raise TranslateError(f"{MISC}: distance_matrix does not allocate/return distm as expected")
+    if [ast.unparse(st) for st in body if st is not loops[0]] != ["assert a.shape[1] == b.shape[1], 'Inner dimensions do not match'",
+                                                                 "distm = np.zeros([a.shape[0], b.shape[0]])", "return distm"] or body.index(loops[0]) != 2:
+        raise TranslateError(f"{MISC}: distance_matrix: statements other than the shape assertion, the allocation, the row loop and the return")
 
     def vec(node):
         if ast.unparse(node) == "a[i]":
@@ -190,6 +202,15 @@ def measure(repo):
     loops = [s for s in ast.walk(fn) if isinstance(s, ast.For) and ast.unparse(s.target) == "(num, m)"]
     if len(loops) != 1 or ast.unparse(loops[0].iter) != "enumerate(measurements)":
         raise TranslateError(f"{MISC}: expected one loop `for num, m in enumerate(measurements)` in measure_coordinates")
+    # the skeleton around the loop (how the coordinates are read, single/many wrapping), pinned statement by statement
+    skel = [ast.unparse(st) for st in _body(fn) if st is not loops[0]]
+    want_skel = ["coordinates = np.atleast_2d(coordinates)", "num_coords = coordinates.shape[0]", "single = False",
+                 "if isinstance(measurements[0], int):\n    measurements = [measurements]\n    single = True", "ret = []",
+                 "if single:\n    return ret[0]\nelse:\n    return ret"]
+    if skel != want_skel or loops[0] not in _body(fn) or _body(fn).index(loops[0]) != 5:
+        diff = [a for a, w in zip(skel + [""] * 6, want_skel + [""] * 6) if a != w][:1]
+        raise TranslateError(f"{MISC}: measure_coordinates: the statements around the measurement loop are not the expected skeleton "
+                             f"(coordinates = np.atleast_2d(coordinates); num_coords; single/many wrapping; return): {diff}")
     b = loops[0].body
     if len(b) != 5:
         raise TranslateError(f"{MISC}: the measurement loop has {len(b)} statements, 5 expected")
@@ -323,10 +344,65 @@ def defaults(repo):
             "  measure_coordinates_call K self_geometry measurements (Some (kw_or molecule_measure_degrees_default degrees)).\n")
 
 
+def wrappers(repo):
+    """the single/many wrapping of measure_coordinates (which element of `measurements` is probed, which element of `ret` a single
+    measurement returns) and the default_connectivity post-processing of guess_connectivity (which components of a bond are kept),
+    translated from the statements around the loops (measure() / connectivity() have pinned the rest of them)"""
+    fn = _fn(repo, MISC, "measure_coordinates")
+    b = _body(fn)
+    probe = [st for st in b if isinstance(st, ast.If) and isinstance(st.test, ast.Call) and ast.unparse(st.test.func) == "isinstance"]
+    if len(probe) != 1:
+        raise TranslateError(f"{MISC}: measure_coordinates: expected one `if isinstance(measurements[k], int):`")
+    t = probe[0].test
+    if not (len(t.args) == 2 and isinstance(t.args[0], ast.Subscript) and ast.unparse(t.args[0].value) == "measurements"
+            and isinstance(t.args[0].slice, ast.Constant) and isinstance(t.args[0].slice.value, int) and t.args[0].slice.value >= 0
+            and ast.unparse(t.args[1]) == "int" and not probe[0].orelse
+            and [ast.unparse(x) for x in probe[0].body] == ["measurements = [measurements]", "single = True"]):
+        _fail(MISC, probe[0], "unexpected single-measurement probe")
+    kprobe = t.args[0].slice.value
+    last = b[-1]
+    if not (isinstance(last, ast.If) and ast.unparse(last.test) == "single" and len(last.body) == 1 and len(last.orelse) == 1
+            and isinstance(last.body[0], ast.Return) and isinstance(last.body[0].value, ast.Subscript)
+            and ast.unparse(last.body[0].value.value) == "ret" and isinstance(last.body[0].value.slice, ast.Constant)
+            and isinstance(last.body[0].value.slice.value, int) and last.body[0].value.slice.value >= 0
+            and ast.unparse(last.orelse[0]) == "return ret"):
+        _fail(MISC, last, "expected `if single: return ret[k] else: return ret`")
+    kret = last.body[0].value.slice.value
+    gc = _fn(repo, CONN, "guess_connectivity")
+    post = [st for st in _body(gc) if isinstance(st, ast.If) and ast.unparse(st.test) == "default_connectivity"]
+    if len(post) != 1 or post[0].orelse or len(post[0].body) != 1:
+        raise TranslateError(f"{CONN}: expected one `if default_connectivity:` statement")
+    a = post[0].body[0]
+    if not (isinstance(a, ast.Assign) and ast.unparse(a.targets[0]) == "con" and isinstance(a.value, ast.ListComp)
+            and len(a.value.generators) == 1 and ast.unparse(a.value.generators[0].target) == "x" and ast.unparse(a.value.generators[0].iter) == "con"
+            and not a.value.generators[0].ifs and isinstance(a.value.elt, ast.Tuple) and len(a.value.elt.elts) == 3):
+        _fail(CONN, a, "expected con = [(x[i], x[j], default_connectivity) for x in con]")
+    e0, e1, e2 = a.value.elt.elts
+    sel = {"x[0]": "fst x", "x[1]": "snd x"}
+    if ast.unparse(e0) not in sel or ast.unparse(e1) not in sel or ast.unparse(e2) != "default_connectivity":
+        _fail(CONN, a, "unexpected components in the default_connectivity comprehension")
+    return ("(* measure_coordinates: `if isinstance(measurements[%d], int): measurements = [measurements]; single = True` before the loop,\n"
+            "   `if single: return ret[%d] else: return ret` after it; [run] is the loop over a list of measurements *)\n"
+            "Definition measure_wrap_gen {V : Type} (run : list (list Z) -> outcome (list V)) (ms : measurements) : outcome (mresult V) :=\n"
+            "  match ms with\n"
+            "  | MOne m => match nth_error m %d with None => Err PyIndexError | Some _ =>\n"
+            "      obind (run [m]) (fun ret => match nth_error ret %d with Some v => Ok (ROne v) | None => Err PyIndexError end) end\n"
+            "  | MMany l => match nth_error l %d with None => Err PyIndexError | Some _ => obind (run l) (fun ret => Ok (RMany ret)) end\n"
+            "  end.\n"
+            "Definition measure_coordinates_entry_gen (K : Fops) (coordinates : list (vec3 K)) (ms : measurements) (degrees : option bool) :=\n"
+            "  measure_wrap_gen (fun l => measure_coordinates_call K coordinates l degrees) ms.\n"
+            "(* guess_connectivity: `if default_connectivity: con = [(%s, %s, default_connectivity) for x in con]` ([truthy] = Python truth of the value) *)\n"
+            "Definition attach_default_gen {B : Type} (truthy : B -> bool) (dc : option B) (con : list (nat * nat)) : list (nat * nat * option B) :=\n"
+            "  match dc with\n"
+            "  | Some v => if truthy v then map (fun x => (%s, %s, Some v)) con else map (fun x => (fst x, snd x, None)) con\n"
+            "  | None => map (fun x => (fst x, snd x, None)) con\n"
+            "  end.\n") % (kprobe, kret, kprobe, kret, kprobe, ast.unparse(e0), ast.unparse(e1), sel[ast.unparse(e0)], sel[ast.unparse(e1)])
+
+
 def generate(repo, out_path):
     text = ("(** GENERATED by harness/translate/geo3glue.py from molutil/connectivity.py and util/misc.py — do not edit. *)\n"
             "From Coq Require Import List Bool ZArith.\n"
             "Require Import QV.Common.Outcome QV.Common.Geo3 QV.Common.Geo3Glue QV.Model.Geometry.\nImport ListNotations.\n\n"
-            "Section Gen.\nVariable K : Fops.\n\n" + connectivity(repo) + "\n" + distance_matrix(repo) + "\nEnd Gen.\n\n" + measure(repo) + "\n" + defaults(repo))
+            "Section Gen.\nVariable K : Fops.\n\n" + connectivity(repo) + "\n" + distance_matrix(repo) + "\nEnd Gen.\n\n" + measure(repo) + "\n" + defaults(repo) + "\n" + wrappers(repo))
     coqrun.write_if_changed(out_path, text)
     return text
